@@ -1,0 +1,88 @@
+//go:build verif
+
+// Verification hooks. This file is only compiled with the build tag "verif". It adds
+// constructors which run the unmodified clients on a caller-supplied knxnet.Socket
+// (instead of dialing), and a trace callback used at a few linearization points.
+
+package knx
+
+import (
+	"container/list"
+
+	"github.com/vapourismo/knx-go/knx/cemi"
+	"github.com/vapourismo/knx-go/knx/knxnet"
+)
+
+// VerifTrace, when non-nil, receives the events emitted by verifTrace.
+var VerifTrace func(name string, args ...int64)
+
+func verifTrace(name string, args ...int64) {
+	if f := VerifTrace; f != nil {
+		f(name, args...)
+	}
+}
+
+// NewTunnelOnSocket is NewTunnel minus the dial.
+func NewTunnelOnSocket(
+	sock knxnet.Socket,
+	layer knxnet.TunnelLayer,
+	config TunnelConfig,
+) (*Tunnel, error) {
+	client := &Tunnel{
+		sock:    sock,
+		config:  checkTunnelConfig(config),
+		layer:   layer,
+		ack:     make(chan *knxnet.TunnelRes),
+		inbound: make(chan cemi.Message),
+		done:    make(chan struct{}),
+	}
+
+	err := client.requestConn()
+	if err != nil {
+		sock.Close()
+		return nil, err
+	}
+
+	client.wait.Add(1)
+	go client.serve()
+
+	return client, nil
+}
+
+// NewGroupTunnelOnSocket is NewGroupTunnel minus the dial.
+func NewGroupTunnelOnSocket(sock knxnet.Socket, config TunnelConfig) (gt GroupTunnel, err error) {
+	gt.Tunnel, err = NewTunnelOnSocket(sock, knxnet.TunnelLayerData, config)
+
+	if err == nil {
+		gt.inbound = make(chan GroupEvent)
+		go serveGroupInbound(gt.Tunnel.Inbound(), gt.inbound)
+	}
+
+	return
+}
+
+// NewRouterOnSocket is NewRouter minus the listen.
+func NewRouterOnSocket(sock knxnet.Socket, config RouterConfig) *Router {
+	config = checkRouterConfig(config)
+
+	r := &Router{
+		sock:          sock,
+		config:        config,
+		inbound:       make(chan cemi.Message),
+		retainer:      list.New(),
+		postSendPause: config.PostSendPauseDuration,
+	}
+
+	go r.serve()
+
+	return r
+}
+
+// NewGroupRouterOnSocket is NewGroupRouter minus the listen.
+func NewGroupRouterOnSocket(sock knxnet.Socket, config RouterConfig) (gr GroupRouter) {
+	gr.Router = NewRouterOnSocket(sock, config)
+	gr.inbound = make(chan GroupEvent)
+	go serveGroupInbound(gr.Router.Inbound(), gr.inbound)
+
+	return
+}
